@@ -1,5 +1,5 @@
-// Engine K harnesses for multiboot2/src/command_line.rs (C04/C05/C07/C17).
-// Spec (Multiboot2 3.6.3 "Boot command line"): u32 type = 1, u32 size, then a
+// Engine K harnesses for multiboot2/src/boot_loader_name.rs (C04/C05/C07/C17).
+// Spec (Multiboot2 3.6.4 "Boot loader name"): u32 type = 2, u32 size, then a
 // zero-terminated UTF-8 string starting at byte 8 of the tag.
 use super::*;
 use multiboot2_common::test_utils::AlignedBytes;
@@ -78,19 +78,20 @@ fn is_ascii(s: &[u8]) -> bool {
 // 8..=24 in a 32-byte region (all 32 bytes symbolic: padding and the following
 // 8 bytes -- the neighbouring tag -- hold arbitrary marker values).
 #[kani::proof]
-pub fn k_cmdline_extent() {
+pub fn k_blname_extent() {
     let bytes = AlignedBytes(kani::any::<[u8; 32]>());
     let b = &bytes.0;
-    kani::assume(le32(b, 0) == 1);
+    kani::assume(le32(b, 0) == 2);
     let size = le32(b, 4) as usize;
     kani::assume(size >= 8 && size <= 24);
     let generic = DynSizedStructure::<TagHeader>::ref_from_slice(&b[..round8(size)]).unwrap();
-    let tag = generic.cast::<CommandLineTag>();
-    assert!(tag.header.typ == TagType::Cmdline);
+    let tag = generic.cast::<BootLoaderNameTag>();
+    assert!(tag.header.typ == TagType::BootLoaderName);
     assert!(tag.header.size as usize == size);
+    assert!(tag.typ() == TagType::BootLoaderName && tag.size() == size);
     // variable part: starts at byte 8, ends exactly at the declared size
-    assert!(tag.cmdline.as_ptr() == b[8..].as_ptr());
-    assert!(tag.cmdline.len() == size - 8);
+    assert!(tag.name.as_ptr() == b[8..].as_ptr());
+    assert!(tag.name.len() == size - 8);
     kani::cover!(size == 13);
     kani::cover!(size == 8);
 }
@@ -100,17 +101,17 @@ pub fn k_cmdline_extent() {
 // smaller sizes are rejected by the guarded payload_len (controlled panic),
 // larger ones by Err(InvalidReportedTotalSize).
 #[kani::proof]
-pub fn k_cmdline_size_any() {
+pub fn k_blname_size_any() {
     let bytes = AlignedBytes(kani::any::<[u8; 24]>());
     let b = &bytes.0;
-    kani::assume(le32(b, 0) == 1);
+    kani::assume(le32(b, 0) == 2);
     let size = le32(b, 4) as usize;
     match DynSizedStructure::<TagHeader>::ref_from_slice(&b[..]) {
         Ok(generic) => {
-            let tag = generic.cast::<CommandLineTag>();
+            let tag = generic.cast::<BootLoaderNameTag>();
             assert!(size >= 8 && size <= 24);
-            assert!(tag.cmdline.as_ptr() == b[8..].as_ptr());
-            assert!(tag.cmdline.len() == size - 8);
+            assert!(tag.name.as_ptr() == b[8..].as_ptr());
+            assert!(tag.name.len() == size - 8);
         }
         Err(e) => {
             assert!(size > 24);
@@ -119,7 +120,7 @@ pub fn k_cmdline_size_any() {
     }
 }
 
-// ---- C17/C04: cmdline() on a parsed tag == bytes before the first NUL INSIDE
+// ---- C17/C04: name() on a parsed tag == bytes before the first NUL INSIDE
 // the declared size; a NUL that exists only in the padding / next tag does not
 // count.  Declared size SIZE (concrete per harness), all 24 region bytes
 // symbolic (string part, padding, neighbouring tag), all byte values; full
@@ -127,12 +128,12 @@ pub fn k_cmdline_size_any() {
 fn parse_check<const SIZE: usize>() {
     let bytes = AlignedBytes(kani::any::<[u8; 24]>());
     let b = &bytes.0;
-    kani::assume(le32(b, 0) == 1);
+    kani::assume(le32(b, 0) == 2);
     kani::assume(le32(b, 4) as usize == SIZE);
     let generic = DynSizedStructure::<TagHeader>::ref_from_slice(&b[..round8(SIZE)]).unwrap();
-    let tag = generic.cast::<CommandLineTag>();
+    let tag = generic.cast::<BootLoaderNameTag>();
     let content = &b[8..SIZE];
-    let r = tag.cmdline();
+    let r = tag.name();
     match first_nul(content) {
         None => assert!(matches!(r, Err(StringError::MissingNul(_)))),
         Some(n) => {
@@ -156,12 +157,12 @@ fn parse_check<const SIZE: usize>() {
 }
 #[kani::proof]
 #[kani::unwind(7)]
-pub fn k_cmdline_parse_size11() {
+pub fn k_blname_parse_size11() {
     parse_check::<11>();
 }
 #[kani::proof]
 #[kani::unwind(7)]
-pub fn k_cmdline_parse_size13() {
+pub fn k_blname_parse_size13() {
     parse_check::<13>();
 }
 
@@ -169,7 +170,7 @@ pub fn k_cmdline_parse_size13() {
 // symbolic length 0..=9 (every padding residue), all byte values 0..=0x7f.
 #[kani::proof]
 #[kani::unwind(12)]
-pub fn k_cmdline_new() {
+pub fn k_blname_new() {
     let raw: [u8; 9] = kani::any();
     let len: usize = kani::any();
     kani::assume(len <= 9);
@@ -177,17 +178,17 @@ pub fn k_cmdline_new() {
     kani::assume(is_ascii(sb));
     // ASCII is valid UTF-8
     let s = unsafe { core::str::from_utf8_unchecked(sb) };
-    let tag = CommandLineTag::new(s);
+    let tag = BootLoaderNameTag::new(s);
     let ends_nul = len > 0 && sb[len - 1] == 0;
     let want = 8 + len + if ends_nul { 0 } else { 1 };
-    assert!(u32::from(tag.header.typ) == 1);
-    assert!(tag.header.typ == CommandLineTag::ID);
+    assert!(u32::from(tag.header.typ) == 2);
+    assert!(tag.header.typ == BootLoaderNameTag::ID);
     assert!(tag.header.size as usize == want);
     let ab = tag.as_bytes();
     let img: &[u8] = *ab;
     assert!(img.len() == round8(want));
     assert!(img.as_ptr() as usize % 8 == 0);
-    assert!(le32(img, 0) == 1);
+    assert!(le32(img, 0) == 2);
     assert!(le32(img, 4) as usize == want);
     let mut i = 0;
     while i < len {
@@ -207,8 +208,8 @@ fn new_readback<const LEN: usize>() {
     let sb = &raw[..];
     kani::assume(is_ascii(sb));
     let s = unsafe { core::str::from_utf8_unchecked(sb) };
-    let tag = CommandLineTag::new(s);
-    let r = tag.cmdline();
+    let tag = BootLoaderNameTag::new(s);
+    let r = tag.name();
     match first_nul(sb) {
         // NUL-free text reads back exactly
         None => assert!(r == Ok(s)),
@@ -220,16 +221,16 @@ fn new_readback<const LEN: usize>() {
 }
 #[kani::proof]
 #[kani::unwind(8)]
-pub fn k_cmdline_new_readback_len0() {
+pub fn k_blname_new_readback_len0() {
     new_readback::<0>();
 }
 #[kani::proof]
 #[kani::unwind(8)]
-pub fn k_cmdline_new_readback_len3() {
+pub fn k_blname_new_readback_len3() {
     new_readback::<3>();
 }
 #[kani::proof]
 #[kani::unwind(8)]
-pub fn k_cmdline_new_readback_len4() {
+pub fn k_blname_new_readback_len4() {
     new_readback::<4>();
 }
